@@ -1,7 +1,7 @@
 (* C07 — Containers keep ownership and ordering invariants. Statements only;
    proofs in proofs/Rack_p.v, Frame_p.v, Containers_p.v, Owner_p.v, Cinv_p.v. *)
 From Coq Require Import ZArith QArith List Bool Permutation.
-From EosV Require Import lib.AList gen.T_eos model.World model.Ops model.Wf proofs.Rack_p proofs.Frame_p
+From EosV Require Import lib.AList gen.T_eos model.World model.Engine model.Ops model.Wf proofs.Rack_p proofs.Frame_p
      proofs.Containers_p proofs.Owner_p proofs.Cinv_p proofs.Runs_p proofs.RunsC_p proofs.RunsK_p proofs.RunsD_p.
 Import ListNotations.
 
@@ -175,6 +175,13 @@ Theorem C07_solar_system_fit_sets_consistent_after_every_history : forall pen op
   (forall f x, fit_solsys w f = Some x <-> In f (ss_fit_list w x)) /\ (forall x, NoDup (ss_fit_list w x)).
 Proof. exact solar_system_links_consistent. Qed.
 
+(* the fit sets of fleets, likewise (a fit is in at most one fleet) *)
+Theorem C07_fleet_fit_sets_consistent_after_every_history : forall pen ops,
+  ops_clean3b (init_sys pen) ops = true ->
+  let w := s_w (run (init_sys pen) ops) in
+  (forall f fl, fit_fleet w f = Some fl <-> In f (fleet_fits w fl)) /\ (forall fl, NoDup (fleet_fits w fl)).
+Proof. exact fleet_links_consistent. Qed.
+
 (* non-vacuity: the history of props/C05.v (a module with a charge and an autocharge) is inside the hypothesis *)
 Example C07_item_containers_nonvacuous :
   ops_clean3b (init_sys []) c07c_demo = true /\
@@ -236,3 +243,4 @@ Print Assumptions C07_containers_consistent_after_every_history.
 Print Assumptions C07_every_operation_keeps_consistency.
 Print Assumptions C07_item_containers_consistent_after_every_history.
 Print Assumptions C07_solar_system_fit_sets_consistent_after_every_history.
+Print Assumptions C07_fleet_fit_sets_consistent_after_every_history.
